@@ -2,10 +2,12 @@
 //
 //	notifcheck replay -in behaviours.ndjson -out result.json
 //	    behaviours exported by TLC (NotifStreamMC): Commit / Clock / Trim / Subscribe / Send / Disconnect /
-//	    Restart.  Commit = WriteBlock on the real leader; Subscribe = LeaderController.GetNotifications with or
+//	    Restart / Elect.  Commit = WriteBlock on the real leader; Subscribe = LeaderController.GetNotifications with or
 //	    without StartOffsetExclusive, the dispatcher parked in the callback so that batches are delivered one
 //	    at a time; Trim = one round of the real trimmer at the instant chosen by the abstract clock; Restart =
-//	    close + new controller on the same WAL and DB.  After every step the commit offset, the notification
+//	    close + new controller on the same WAL and DB; Elect(lag) = a real follower controller that received the
+//	    whole log but was told a commit offset `lag` entries short of it takes over (fenced, closed, leader
+//	    controller on its WAL and DB, BecomeLeader applies the tail).  After every step the commit offset, the notification
 //	    keys stored in the DB, the batch the dispatcher offers next and the delivered batch are compared.
 //	notifcheck drive -seed S -n N -ops K -out trace.ndjson
 //	    random schedules (more offsets, several trims and restarts), recorded for NotifTrace.tla.
@@ -34,7 +36,7 @@ const NoStart = -2
 // NStep is one step: arguments (a, arg) and the observation after it.
 type NStep struct {
 	A     string `json:"a"`
-	Arg   int    `json:"arg"`   // Subscribe: start offset (NoStart: none); Send: offset delivered; Commit: offset
+	Arg   int    `json:"arg"`   // Subscribe: start offset (NoStart: none); Send: offset delivered; Commit: offset; Elect: lag
 	Dummy int    `json:"dummy"` // Subscribe: offset of the empty first batch (NoStart: none sent)
 	N     int    `json:"n"`     // committed offsets
 	Kept  []int  `json:"kept"`  // offsets of the stored notification batches
@@ -183,6 +185,25 @@ func (r *runner) exec(st *NStep) {
 		r.open, r.buf = false, nil
 		if err := r.e.Restart(); err != nil {
 			fail("restart: %v", err)
+			return
+		}
+	case "Elect":
+		if r.str != nil && r.open {
+			if err := r.str.Disconnect(); err != nil {
+				fail("disconnect: %v", err)
+			}
+		}
+		r.open, r.buf = false, nil
+		if st.Arg < 1 || st.Arg > r.e.NextOffset() {
+			fail("harness: Elect with lag %d, %d entries in the log", st.Arg, r.e.NextOffset())
+			return
+		}
+		if err := r.e.ElectLagging(st.Arg); err != nil {
+			if strings.HasPrefix(err.Error(), "harness:") {
+				fail("%v", err)
+			} else {
+				fail("election of a replica whose DB is %d entries behind its log: %v", st.Arg, err)
+			}
 			return
 		}
 	default:
@@ -427,6 +448,9 @@ func cmdDrive(args []string) int {
 				st.A = "Disconnect"
 			case x == 17 && k > 0:
 				st.A = "Restart"
+			case x == 18 && r.e.NextOffset() > 0:
+				st.A = "Elect"
+				st.Arg = 1 + rng.Intn(min(3, r.e.NextOffset()))
 			default:
 				st.A = "Commit"
 			}
